@@ -283,19 +283,20 @@ Section SelectionTheorem.
   Hypothesis HS : SWO ltb.
 
   Theorem selection_correct (seqs : list (list A)) (r : nat) :
-    dflt seqs <> None -> any_empty seqs = false -> all_sorted ltb seqs -> (r < total seqs)%nat ->
+    any_empty seqs = false -> all_sorted ltb seqs -> (r < total seqs)%nat ->
     exists v off, selection ltb seqs (Z.of_nat r) = SelOk v off /\ 0 <= off /\
                   check_select ltb seqs r v (Z.to_nat off) = true.
   Proof.
-    intros Hd Hne Hsorted Hr.
+    intros Hne Hsorted Hr.
     assert (0 <= Z.of_nat r < ztotal seqs) as Hrank by (rewrite ztotal_total; lia).
-    assert (seqs <> []) as Hnil by (intros ->; apply Hd; reflexivity).
+    assert (seqs <> []) as Hnil by (apply (total_pos_nonnil seqs r); exact Hr).
+    destruct (dflt_some seqs Hnil Hne) as [d Ed].
     unfold selection.
     destruct (Nat.eqb_spec (length seqs) 0) as [C|_]; [destruct seqs; [congruence|discriminate]|].
     destruct (Z.eqb_spec (ztotal seqs) 0) as [C|_]; [lia|].
     destruct (Z.ltb_spec (Z.of_nat r) 0) as [C|_]; [lia|].
     destruct (Z.leb_spec (ztotal seqs) (Z.of_nat r)) as [C|_]; [lia|]. cbn [orb].
-    destruct (dflt seqs) as [d|]; [|congruence]. rewrite Hne.
+    rewrite Ed, Hne.
     destruct (core_setup ltb HS seqs d r false false Hnil Hne Hr) as (l & j & fuel & a0 & b0 & Ec & Hf & Hdl & Hll & I1 & I2 & I3).
     rewrite Ec.
     destruct (refine_ok_val ltb HS seqs d (Z.of_nat r) Hsorted l Hrank Hll j fuel a0 b0 Hf Hdl I1
@@ -310,11 +311,11 @@ Section SelectionTheorem.
   (** in terms of the specification: the value is equivalent to the element at rank r of the merged order and the
       offset is the number of equivalent elements before it *)
   Corollary selection_meets_spec (seqs : list (list A)) (r : nat) :
-    dflt seqs <> None -> any_empty seqs = false -> all_sorted ltb seqs -> (r < total seqs)%nat ->
+    any_empty seqs = false -> all_sorted ltb seqs -> (r < total seqs)%nat ->
     exists v off w, selection ltb seqs (Z.of_nat r) = SelOk v off /\ 0 <= off /\
                     select_spec ltb seqs r = Some (w, Z.to_nat off) /\ eqvb ltb v w = true.
   Proof.
-    intros Hd Hne Hsorted Hr. destruct (selection_correct seqs r Hd Hne Hsorted Hr) as (v & off & Es & Ho & Hc).
+    intros Hne Hsorted Hr. destruct (selection_correct seqs r Hne Hsorted Hr) as (v & off & Es & Ho & Hc).
     apply (check_select_correct ltb HS seqs r v _ Hsorted Hr) in Hc as (w & Hw & He).
     exists v, off, w. auto.
   Qed.
